@@ -1,5 +1,6 @@
 (* C03 — inbound messages are reassembled and delivered exactly once, intact, in order.
    This file only pins statements. *)
+From Amq Require Import Lib.RsVal Gen.SrcCollect Proofs.CollectorSrc.
 From Amq Require Import Lib.Base Gen.Consts Model.Wire Model.Frames Model.OutBuf Model.Collector
      Model.Slots Model.Core Spec.Content Proofs.Collector Proofs.CoreContent.
 
@@ -51,6 +52,22 @@ Theorem C03_frame_lemma : forall f dbg c o c',
   forall n, n <> frame_chan f -> alookup n (c_slots c') = alookup n (c_slots c).
 Proof. intros f dbg c o c' H1 H2. exact (frame_other_channels H1 H2). Qed.
 
+(* THE MODEL IS THE SOURCE: the functions of src/io_loop/content_collector.rs as translated from the
+   source text on every run (Gen/SrcCollect.v, tools/rs2sm.py: collect_deliver / collect_return /
+   collect_get / collect_header / collect_body of ContentCollector and of State<T>), run over ANY
+   sequence of method / header / body frames from any collector state, complete the same messages in
+   the same order, end in the same state and fail at the same frame as Model/Collector.v - the model
+   C03_roundtrip, C03_not_early, C03_sequence and the Core theorems are about.  t_new is T::new
+   (Delivery::new builds a (tag, delivery) pair: the hypothesis), payload the method a content
+   starts with, class_id / weight the header fields the collector does not read. *)
+Theorem C03_source_is_model : forall (t_new : list val -> val) (payload : ckind -> val), (forall (ch : val) (tag : str) (dtag : N) (red : bool) (exch rk : str) (buf props : val), exists t d : val, t_new [ch; payload (CDeliver tag dtag red exch rk); buf; props] = VC "tuple" [t; d]) -> forall (class_id weight : val) (ch : N) (evs : list cev) (st : cstate), grun t_new payload class_id weight (enc_self payload class_id weight ch st) evs = (map (enc_out t_new payload ch) (fst (crun st evs)), option_map (enc_self payload class_id weight ch) (snd (crun st evs))).
+Proof. exact run_source_is_model. Qed.
+
+(* ... hence C03_sequence holds of the translated code itself: any number of messages, each with any
+   valid partition of its body: exactly those messages, each once, in order, and idle again. *)
+Theorem C03_source_sequence : forall (t_new : list val -> val) (payload : ckind -> val), (forall (ch : val) (tag : str) (dtag : N) (red : bool) (exch rk : str) (buf props : val), exists t d : val, t_new [ch; payload (CDeliver tag dtag red exch rk); buf; props] = VC "tuple" [t; d]) -> forall (class_id weight : val) (ch : N) (msgs : list msg3), Forall (fun '(_, _, parts) => valid_parts parts) msgs -> grun t_new payload class_id weight (enc_self payload class_id weight ch CNone) (flat_map (fun '(k, props, parts) => crender k props parts) msgs) = (map (fun '(k, props, parts) => enc_out t_new payload ch (k, props, concat parts)) msgs, Some (enc_self payload class_id weight ch CNone)).
+Proof. exact source_sequence. Qed.
+
 (* non-vacuity: a 5-byte body in parts [ab][][cde] for consumer "t" on channel 3 *)
 Example C03_example :
   let s := {| s_mail := []; s_mail_tx := true; s_reply := 2; s_coll := CNone;
@@ -96,9 +113,15 @@ Check C03_frame_lemma : forall f dbg c o c',
   frame_chan f <> 0 -> process c (f, dbg) = (o, c') ->
   forall n, n <> frame_chan f -> alookup n (c_slots c') = alookup n (c_slots c).
 
+Check C03_source_is_model : forall (t_new : list val -> val) (payload : ckind -> val), (forall (ch : val) (tag : str) (dtag : N) (red : bool) (exch rk : str) (buf props : val), exists t d : val, t_new [ch; payload (CDeliver tag dtag red exch rk); buf; props] = VC "tuple" [t; d]) -> forall (class_id weight : val) (ch : N) (evs : list cev) (st : cstate), grun t_new payload class_id weight (enc_self payload class_id weight ch st) evs = (map (enc_out t_new payload ch) (fst (crun st evs)), option_map (enc_self payload class_id weight ch) (snd (crun st evs))).
+Check C03_source_sequence : forall (t_new : list val -> val) (payload : ckind -> val), (forall (ch : val) (tag : str) (dtag : N) (red : bool) (exch rk : str) (buf props : val), exists t d : val, t_new [ch; payload (CDeliver tag dtag red exch rk); buf; props] = VC "tuple" [t; d]) -> forall (class_id weight : val) (ch : N) (msgs : list msg3), Forall (fun '(_, _, parts) => valid_parts parts) msgs -> grun t_new payload class_id weight (enc_self payload class_id weight ch CNone) (flat_map (fun '(k, props, parts) => crender k props parts) msgs) = (map (fun '(k, props, parts) => enc_out t_new payload ch (k, props, concat parts)) msgs, Some (enc_self payload class_id weight ch CNone)).
+
 Print Assumptions C03_roundtrip.
 Print Assumptions C03_not_early.
 Print Assumptions C03_sequence.
 Print Assumptions C03_deliver.
 Print Assumptions C03_frame_lemma.
 Print Assumptions C03_example.
+Print Assumptions C03_source_is_model.
+Print Assumptions C03_source_sequence.
+Print Assumptions tie_hypothesis_example.
